@@ -13,6 +13,18 @@ CLAIMED = {
         text="TLC proves on MH.tla that the step rule never leaves a good state, rejects on NaN and keeps the state on rejection for all 8^4 IEEE-kind tables x 7 draw classes, and on MHBalance.tla that the kernel induced by the rule satisfies detailed balance for every 3-state integer-weight target and asymmetric proposal table; every enumerated case is executed as a real MHMarkovChain::step for 5 state/float type combinations and random finite-state chains are trace-validated step by step against the rule. Exhaustive over the bounded model, sampled beyond it.",
         note="Trusted: TLC, the projection in harness/src/c01.rs (table-backed Target/Proposal, crafted xoshiro state for the acceptance draw, checked at run time), monotonicity of ln. Finite ties are never asserted; IEEE-kind ties are.",
         ref="DESIGN.md 4.4, 5/C01", technique="TLC exhaustive model check of MH.tla/MHBalance.tla + spec-to-impl replay (Gen_MH) + trace validation (Trace_MH)"),
+    "C05": dict(
+        text="TLC proves on GibbsJoint.tla, for every joint weight table on 2 coordinates x 3 values (weights {1,2}; {1,2,3} thorough), that the sweep defined by Gibbs.tla leaves the joint invariant, and finds the stale-snapshot sweep does not (negative control); all return-value scripts of MC_Gibbs are replayed through the real GibbsMarkovChain for 4 element types and recorded conditional calls of chains (dim 1..64) and whole GibbsSampler runs are validated call by call against Gibbs.tla.",
+        note="Trusted: TLC, the recording Conditional of harness/src/c05.rs (its log is the trace), token<->bit-pattern table.",
+        ref="DESIGN.md 4.5, 5/C05", technique="TLC model check of Gibbs.tla/GibbsJoint.tla + replay of TLC-enumerated scripts + trace validation (Trace_Gibbs)"),
+    "C11": dict(
+        text="Stats.tla defines split R-hat^2 as an exact fraction of integer arrays; TLC checks its theorems (lower bound (n-1)/n, affine / permutation invariance, growth under separation) on every array in the bounds and prints the exact expected value per array; every array is fed to the real split_rhat_mean_ess in 4 embeddings (alone, among other parameters, affine, rescaled) and must agree to f32 accuracy; long spec-generated arrays cover large n; BasicStats.tla decides the run summary (min/max/mean/std/middle order statistic, NaN tolerated).",
+        note="Trusted: TLC integer arithmetic (overflow is an error), the final float comparison in harness/src/stats.rs. Either divisor of W accepted; undefined (W=0) cases only required not to fail.",
+        ref="DESIGN.md 4.8, 5/C11", technique="TLC-enumerated arrays with exact rational oracle (Stats.tla, BasicStats.tla) replayed into the real diagnostics"),
+    "C12": dict(
+        text="Stats.tla defines ESS = m n / tau with Geyer's initial positive monotone sequence over exact integer autocovariances (no brute-force/FFT distinction); TLC checks affine, permutation and time-reversal invariance on every array in the bounds and emits the exact expected ESS; arrays are replayed into the real implementation on the brute-force path (exhaustive small arrays) and on the FFT path (spec-generated binary Markov/block chains with half lengths 100..500 around the 100-row switch and both padding cases).",
+        note="Trusted: TLC, float comparison with 2^-14 relative tolerance; arrays whose Geyer cut is within 2^-12 var+ of a tie are skipped for the value (rule U). Asymptotic 'about N(1-phi)/(1+phi)' is not asserted.",
+        ref="DESIGN.md 4.8, 5/C12", technique="TLC-enumerated and TLC-generated arrays with exact rational oracle (Stats.tla) replayed into the real ESS code"),
 }
 
 PENDING_REASON = "check not built yet in this round (planned: see DESIGN.md section 5); not claimed until its TLC + conformance check exists"
